@@ -213,14 +213,19 @@ def run_property(prop, tier="quick", seed=0, write_baseline=False, only=None, ve
         suffix = "" if info.get("confirmed") else " no-failing-input-found"
         lines.append(f"VIOLATION property={prop} replay={path}{suffix}")
     for rep in standin_reports:
-        for kf in rep.get("known", []):
+        fresh_viols = []
+        for viol in rep.get("violations", []):
             entry = next((e for e in known if e.get("status") == "known" and e.get("standin") == rep["name"]
-                          and e.get("case") == kf.get("case")), None)
+                          and re.fullmatch(e.get("case", ""), str(viol.get("case", "")))), None)
             if entry is not None:
-                lines.append(f"KNOWN-FINDING: property={prop} {entry['what']} [{rep['name']}]")
+                line = f"KNOWN-FINDING: property={prop} {entry['what']} [{rep['name']}]"
+                if line not in lines:
+                    lines.append(line)
+                rep.setdefault("known_hits", []).append(viol.get("case"))
             else:
-                rep.setdefault("violations", []).append(kf)
-        for i, viol in enumerate(rep.get("violations", [])[:10]):
+                fresh_viols.append(viol)
+        rep["violations"] = fresh_viols
+        for i, viol in enumerate(fresh_viols[:10]):
             n_viol += 1
             path = os.path.join(VERIF, "replays", f"{prop}-{_slug(rep['name'])}-{i}.json")
             replay.write_replay(path, {"property": prop, "kind": "bounded-standin", "standin": rep["name"],
